@@ -820,7 +820,9 @@ pub fn generate(seed: u64, tier: Tier, p: &Profile) -> Scenario {
     if pm(&mut g.r, p.metadata) {
         let n = 1 + g.r.below(2);
         for _ in 0..n {
-            let m = match g.r.below(5) {
+            let kinds = if g.r.chance(1, 6) { 6 } else { 5 };
+            let m = match g.r.below(kinds) {
+                5 => MetaSpec::Empty(g.r.below(3) as u8),
                 4 => MetaSpec::Text(g.r.below(1000), *g.r.pick(&[1u8, 21, 22, 32, 33, 63, 64, 65]), *g.r.pick(&[1u8, 1, 2, 3])),
                 0 => MetaSpec::Json(g.r.below(1000), g.r.below(255) as u8),
                 1 => MetaSpec::AuxScripts { native: vec![g.native_ids[0]], plutus: if g.r.chance(1, 2) && !g.plutus_ids.is_empty() { vec![g.plutus_ids[0]] } else { vec![] }, prefer_alonzo: g.r.chance(1, 2) },
